@@ -1,11 +1,15 @@
-(* C12 — implementation layer, AES: the constant-time bitsliced S-box circuits of
-   muggle/c/crypt/openssl/openssl_aes.c (openssl_sub_u64, openssl_inv_sub_u64, openssl_sub_u32),
-   translated statement by statement from the C source on every run (coq/gen/Params_C12.v,
-   lib/props/c12.py) into the word-level language of Bitvec.v.  Variable 0 is *w on entry.
-   Definitions only. *)
+(* C12 — implementation layer, AES: muggle/c/crypt/openssl/openssl_aes.c (the constant-time code that
+   runs when MUGGLE_CRYPT_OPTIMIZATION is on) as it is coded.
+   Straight-line circuits - openssl_sub_u64, openssl_inv_sub_u64, openssl_sub_u32, openssl_xtime_u64,
+   openssl_xtime_u32 and one iteration of the column loops of openssl_mix_columns / openssl_inv_mix_columns
+   (union byte views and the xtime calls expanded in place) - are translated statement by statement from
+   the C source on every run (coq/gen/Params_C12.v, lib/props/c12.py) into the word-level language of
+   Bitvec.v; variable 0 is the word on entry.  The control structure around them (the two-word state, the
+   byte loops of shift_row, the round loops, the key expansion loop) is transcribed by hand below.
+   uint64_t state[2] is viewed as its 16 bytes in memory, little-endian host.  Definitions only. *)
 From Coq Require Export List NArith Bool.
 Export ListNotations.
-From MV Require Export C12.Bitvec gen.Params_C12.
+From MV Require Export C12.Bitvec gen.Params_C12 C12.Modes.
 Local Open Scope N_scope.
 
 (* run a circuit: variable 0 = *w on entry, variable out = the value stored to *w *)
@@ -14,3 +18,93 @@ Definition circ (p : prog) (out : nat) (x : N) : N := nth out (run [] [x] p) 0.
 Definition impl_sub_u64 : N -> N := circ aes_sub_u64_prog aes_sub_u64_out.
 Definition impl_inv_sub_u64 : N -> N := circ aes_inv_sub_u64_prog aes_inv_sub_u64_out.
 Definition impl_sub_u32 : N -> N := circ aes_sub_u32_prog aes_sub_u32_out.
+Definition impl_xtime_u64 : N -> N := circ aes_xtime_u64_prog aes_xtime_u64_out.
+Definition impl_xtime_u32 : N -> N := circ aes_xtime_u32_prog aes_xtime_u32_out.
+(* body of  for (c = 0; c < 2; c++)  in openssl_mix_columns / openssl_inv_mix_columns, on state[c] *)
+Definition impl_mix_word : N -> N := circ aes_mix_columns_prog aes_mix_columns_out.
+Definition impl_inv_mix_word : N -> N := circ aes_inv_mix_columns_prog aes_inv_mix_columns_out.
+
+(* uint64_t state[2] / a round key w[2i], w[2i+1] *)
+Definition state := (N * N)%type.
+Definition load16 (b : list N) : state := (of_le (firstn 8 b), of_le (skipn 8 b)).   (* memcpy(state, in, 16) *)
+Definition store16 (s : state) : list N := le64 (fst s) ++ le64 (snd s).              (* memcpy(out, state, 16) *)
+
+(* openssl_sub_u64(&state[0]); openssl_sub_u64(&state[1]); *)
+Definition impl_sub_state (s : state) : state := (impl_sub_u64 (fst s), impl_sub_u64 (snd s)).
+Definition impl_inv_sub_state (s : state) : state := (impl_inv_sub_u64 (fst s), impl_inv_sub_u64 (snd s)).
+
+(* openssl_shift_row: for r in 0..3: s[c] = s0[c*4+r]; s0[c*4+r] = s[(r+c) % 4] *)
+Definition four : list nat := [0;1;2;3]%nat.
+Definition shift_row_bytes (s0 : list N) : list N :=
+  fold_left (fun st (r : nat) =>
+     let s := map (fun c : nat => nth (Nat.add (Nat.mul c 4) r) st 0) four in
+     fold_left (fun st' (c : nat) => upd (Nat.add (Nat.mul c 4) r) (nth (Nat.modulo (Nat.add r c) 4) s 0) st') four st) four s0.
+(* openssl_inv_shift_row: s0[c*4+r] = s[(4+c-r) % 4] *)
+Definition inv_shift_row_bytes (s0 : list N) : list N :=
+  fold_left (fun st (r : nat) =>
+     let s := map (fun c : nat => nth (Nat.add (Nat.mul c 4) r) st 0) four in
+     fold_left (fun st' (c : nat) => upd (Nat.add (Nat.mul c 4) r) (nth (Nat.modulo (Nat.sub (Nat.add 4 c) r) 4) s 0) st') four st) four s0.
+Definition impl_shift_row (s : state) : state := load16 (shift_row_bytes (store16 s)).
+Definition impl_inv_shift_row (s : state) : state := load16 (inv_shift_row_bytes (store16 s)).
+
+Definition impl_mix_columns (s : state) : state := (impl_mix_word (fst s), impl_mix_word (snd s)).
+Definition impl_inv_mix_columns (s : state) : state := (impl_inv_mix_word (fst s), impl_inv_mix_word (snd s)).
+
+(* openssl_add_round_key(state, w): state[0] ^= w[0]; state[1] ^= w[1]; *)
+Definition impl_add_round_key (s w : state) : state := (N.lxor (fst s) (fst w), N.lxor (snd s) (snd w)).
+
+(* w + i*2 in the array of uint64_t round-key words *)
+Definition rk_at (w : list N) (i : nat) : state := (nth (2 * i)%nat w 0, nth (2 * i + 1)%nat w 0).
+
+(* openssl_cipher(in, out, w, nr) *)
+Definition impl_cipher (w : list N) (nr : nat) (inp : list N) : list N :=
+  let st := impl_add_round_key (load16 inp) (rk_at w 0) in
+  let st := fold_left (fun st i =>
+              impl_add_round_key (impl_mix_columns (impl_shift_row (impl_sub_state st))) (rk_at w i))
+            (seq 1 (nr - 1)) st in
+  store16 (impl_add_round_key (impl_shift_row (impl_sub_state st)) (rk_at w nr)).
+
+(* openssl_inv_cipher(in, out, w, nr):  for (i = nr - 1; i > 0; i--) *)
+Definition impl_inv_cipher (w : list N) (nr : nat) (inp : list N) : list N :=
+  let st := impl_add_round_key (load16 inp) (rk_at w nr) in
+  let st := fold_left (fun st i =>
+              impl_inv_mix_columns (impl_add_round_key (impl_inv_sub_state (impl_inv_shift_row st)) (rk_at w i)))
+            (rev (seq 1 (nr - 1))) st in
+  store16 (impl_add_round_key (impl_inv_sub_state (impl_inv_shift_row st)) (rk_at w 0)).
+
+(* ---- openssl_key_expansion(key, w, nr, nk) ---- *)
+Definition two32 : N := 4294967296.
+Definition lo32 (d : N) : N := N.land d 0xffffffff.                 (* prev.w[0] *)
+Definition hi32 (d : N) : N := N.shiftr d 32.                       (* prev.w[1] *)
+Definition mk64 (lo hi : N) : N := lo + two32 * hi.
+(* openssl_rot_word: the four bytes of the word move down by one (little-endian: a right rotation by 8) *)
+Definition rot_word_prog : prog := [ (1%nat, Or (Shr (Var 0) 8) (Shl 32 (Var 0) 24)) ].
+Definition impl_rot_word : N -> N := circ rot_word_prog 1.
+
+(* one iteration of  for (i = n; i < (nr+1)*2; i++);  st = (w so far, rcon, prev.d) *)
+Definition kx_step (nk n : nat) (st : list N * N * N) (i : nat) : list N * N * N :=
+  let w := fst (fst st) in let rcon := snd (fst st) in let prev := snd st in
+  let temp := hi32 prev in
+  let tr :=
+    if Nat.eqb (Nat.modulo i n) 0 then (N.lxor (impl_sub_u32 (impl_rot_word temp)) rcon, impl_xtime_u32 rcon)
+    else if Nat.ltb 6 nk && Nat.eqb (Nat.modulo i n) 2 then (impl_sub_u32 temp, rcon)
+    else (temp, rcon) in
+  let prev' := nth (Nat.sub i n) w 0 in
+  let p0 := N.lxor (lo32 prev') (fst tr) in
+  let p1 := N.lxor (hi32 prev') p0 in
+  (w ++ [mk64 p0 p1], snd tr, mk64 p0 p1).
+Fixpoint words64 (n : nat) (key : list N) : list N :=      (* memcpy(w, key, nk*4) *)
+  match n with O => [] | S m => of_le (firstn 8 key) :: words64 m (skipn 8 key) end.
+Definition impl_key_expansion (key : list N) (nk nr : nat) : list N :=
+  let n := Nat.div nk 2 in
+  let w0 := words64 n key in
+  fst (fst (fold_left (kx_step nk n) (seq n (Nat.sub (Nat.mul (Nat.add nr 1) 2) n)) (w0, 1, nth (Nat.sub n 1) w0 0))).
+
+(* muggle_openssl_aes_set_key + muggle_openssl_aes_encrypt / _decrypt *)
+Definition impl_aes_set_key (bits : N) (key : list N) : option (list N * nat) :=
+  match aes_params bits with
+  | Some (nk, nr) => Some (impl_key_expansion key nk nr, nr)
+  | None => None
+  end.
+Definition impl_aes_encrypt (sk : list N * nat) (blk : list N) : list N := impl_cipher (fst sk) (snd sk) blk.
+Definition impl_aes_decrypt (sk : list N * nat) (blk : list N) : list N := impl_inv_cipher (fst sk) (snd sk) blk.
